@@ -441,3 +441,41 @@ def run(index, rep, tier):
             rep.check(not route and not whole, "R13.10", ptl.qualname, "NTAX guard depends on %s" % ("the attached-namespace mode" if route else "the size of the whole namespace"), fn_where(ptl, t.stmt), "the NTAX guard counts the labels of the statement",
                       "_parse_taxlabels_statement refuses a label under `%s`: the size of the whole namespace includes taxa that were there before the document, and the test is switched off only in attached mode - TreeList.get / Tree.get with a shared namespace that already holds NTAX or more other taxa raise TooManyTaxaError, the file iterator and DataSet.get read the same source without complaint" % txt[:110])
         rep.floor("R13.10", "NTAX guards in _parse_taxlabels_statement", 1, len(guards))
+
+    # ---- R13.11 the token a reader loop tests is the token it last read
+    with rep.section("R13.11"):
+        rep.rule("R13.11", "the token a block loop tests is the one it last read: inside a `while <test on token>` loop of the NEXUS/Newick readers no call that advances the tokenizer (next_token*, require_next_token*, skip_to_semicolon) whose result is not bound to `token` reaches the loop test without `token` being re-read - otherwise the END that closes the block (or the next block's BEGIN) is skipped unseen")
+        ADV = ("next_token", "next_token_ucase", "require_next_token", "require_next_token_ucase", "skip_to_semicolon")
+        nl = na = 0
+        for m in ("dendropy.dataio.nexusreader", "dendropy.dataio.nexusyielder", "dendropy.dataio.newickreader", "dendropy.dataio.newickyielder"):
+            for fi in index.functions_in_module(m):
+                g = cfg_of(fi)
+                tests = [t for t in g.nodes if t.kind == "test" and isinstance(t.stmt, ast.While) and any(isinstance(x, ast.Name) and x.id == "token" for x in ast.walk(t.ast))]
+                if not tests:
+                    continue
+
+                def assigns_token(n):
+                    a = n.ast
+                    return isinstance(a, ast.Assign) and any(isinstance(x, ast.Name) and x.id == "token" for tg in a.targets for x in ast.walk(tg))
+                seen = set()
+                for t in tests:
+                    nl += 1
+                    inner = {id(x) for x in ast.walk(t.stmt)}
+                    for n in g.nodes:
+                        if n.stmt is None or n.stmt is t.stmt or id(n.stmt) not in inner or assigns_token(n):
+                            continue
+                        adv = [c for c in node_calls(n) if call_name(c) in ADV and isinstance(c.func, ast.Attribute) and "tokenizer" in norm(c.func.value)]
+                        if not adv:
+                            continue
+                        na += 1
+                        w = g.can_reach(n, lambda x: x is t, avoid=assigns_token, follow_exc=False)
+                        key = (id(n), t.stmt.lineno)
+                        if key in seen:
+                            continue
+                        seen.add(key)
+                        rep.check(w is None, "R13.11", fi.qualname, "loop test on a token that is no longer current (`%s`)" % norm(adv[0])[:60], fn_where(fi, n.ast),
+                                  "%s: `%s` is followed by a re-read of token before the loop test" % (fi.name, norm(adv[0])[:50]),
+                                  "%s: `%s` advances the tokenizer inside the `while` loop at line %d and the loop test is reached without `token` being read again: the test looks at a token the tokenizer has already moved past, so the END of the block (or whatever followed the statement skipped) goes unseen and the rest of the document is consumed or misparsed"
+                                  % (fi.qualname, norm(adv[0])[:60], t.stmt.lineno))
+        rep.floor("R13.11", "token-driven reader loops", 8, nl)
+        rep.floor("R13.11", "tokenizer advances inside them", 3, na)
